@@ -17,4 +17,85 @@ MUTANTS = [
  ("c02-overflow-amount", "C02", [("channel.go", "			return overflowErr{size: size - ch.msize}\n		}\n\n		return nil\n	}\n\n}", "			return overflowErr{size: size - ch.msize + 4}\n		}\n\n		return nil\n	}\n\n}")]),
  ("c02-msgmsize-no-header", "C02", [("channel.go", "return channelMessageHeaderSize + ch.codec.Size(fcall)", "return ch.codec.Size(fcall)")]),
  ("c02-flush-error-dropped", "C02", [("channel.go", "	return ch.bwr.Flush()\n}", "	ch.bwr.Flush()\n	return nil\n}")]),
+ # ---- C03
+ ("c03-no-discard", "C03", [("channel.go", """		nn, err := io.CopyN(ioutil.Discard, rd, int64(mbody-len(p)))
+		n += int(nn)
+		if err != nil {
+			return n, err
+		}
+""", """		n += mbody - len(p)
+		_ = ioutil.Discard
+""")]),
+ ("c03-overflow-ge", "C03", [("channel.go", "	if n > len(ch.rdbuf) {", "	if n >= len(ch.rdbuf) {")]),
+ ("c03-no-inbound-clamp", "C03", [("channel.go", """	if err := ch.maybeTruncate(fcall); err != nil {
+		return err
+	}
+
+	return nil
+}
+
+// WriteFcall""", """	return nil
+}
+
+// WriteFcall""")]),
+ ("c03-swallow-unmarshal-error", "C03", [("channel.go", """fcall); err != nil {
+		return err
+	}
+
+	if err := ch.maybeTruncate(fcall); err != nil {
+		return err
+	}
+
+	return nil""", """fcall); err != nil {
+		log.Printf("p9p: ignoring decode error: %v", err)
+	}
+
+	if err := ch.maybeTruncate(fcall); err != nil {
+		return err
+	}
+
+	return nil""")]),
+ ("c03-discard-off-by-4", "C03", [("channel.go", "int64(mbody-len(p)))", "int64(int(msize)-len(p)))")]),
+ ("c03-no-clear", "C03", [("channel.go", """	*fcall = Fcall{}
+""", "")]),
+ ("c03-overflow-amount", "C03", [("channel.go", "return overflowErr{size: n - len(ch.rdbuf)}", "return overflowErr{size: n - ch.msize + 4}")]),
+ ("c03-cut-wrong", "C03", [("channel.go", """		p = p[:mbody]
+""", """		p = p[:mbody+1]
+""")]),
+ ("c03-header-guard-weak", "C03", [("channel.go", "	if msize < channelMessageHeaderSize {", "	if msize < 1 {")]),
+ ("c03-decode-whole-buffer", "C03", [("channel.go", "ch.codec.Unmarshal(ch.rdbuf[:n-channelMessageHeaderSize], fcall)", "ch.codec.Unmarshal(ch.rdbuf, fcall)")]),
+
+ # ---- C10
+ ("c10-unconditional-setmsize", "C10", [("version.go", """	if int(mv.MSize) < ch.MSize() {
+		// if the server msize is too large, use the client's suggested msize.
+		ch.SetMSize(int(mv.MSize))
+		respmsg.MSize = mv.MSize
+	} else {
+		respmsg.MSize = uint32(ch.MSize())
+	}""", """	ch.SetMSize(int(mv.MSize))
+	respmsg.MSize = mv.MSize""")]),
+ ("c10-echo-client-msize", "C10", [("version.go", """		respmsg.MSize = uint32(ch.MSize())""", """		respmsg.MSize = mv.MSize""")]),
+ ("c10-accept-non-version", "C10", [("version.go", """	if !ok {
+		return fmt.Errorf("expected version message: %v", mv)
+	}""", """	if !ok {
+		mv = MessageTversion{MSize: uint32(ch.MSize()), Version: version}
+	}""")]),
+ ("c10-ignore-negotiation-error", "C10", [("serveconn.go", """		return fmt.Errorf("error negotiating version: %s", err)""", """		log.Printf("error negotiating version: %s", err)""")]),
+ ("c10-client-adopts-larger", "C10", [("version.go", """		if int(v.MSize) < ch.MSize() {
+			// upgrade msize if server differs.""", """		if int(v.MSize) != ch.MSize() {
+			// upgrade msize if server differs.""")]),
+ ("c10-reply-error-ignored", "C10", [("version.go", """	if err := ch.WriteFcall(ctx, resp); err != nil {
+		return err
+	}
+
+	if respmsg.Version""", """	ch.WriteFcall(ctx, resp)
+
+	if respmsg.Version""")]),
+ ("c10-setmsize-no-grow", "C10", [("channel.go", """	ch.rdbuf = make([]byte, msize)
+}""", """}""")]),
+ ("c10-client-msize-default", "C10", [("csession.go", """		msize:     ch.MSize(),""", """		msize:     DefaultMSize,""")]),
+ ("c10-setmsize-before-compare", "C10", [("version.go", """		if int(v.MSize) < ch.MSize() {
+			// upgrade msize if server differs.
+			ch.SetMSize(int(v.MSize))
+		}""", """		ch.SetMSize(int(v.MSize))""")]),
 ]
